@@ -1,4 +1,5 @@
 import LoraVerif.Props.C05
+import LoraVerif.Props.TieA.RegionPayload
 import LoraVerif.Props.TieA.C05
 import LoraVerif.Props.C05Size
 import LoraVerif.Props.TieA.MacRfC05
